@@ -614,7 +614,9 @@ impl<T> Buffer<T> {
     pub(crate) fn verif_preposition(&self, offset: usize, prefill: usize) {
         let mut s = self.state.0.lock().unwrap();
         let cap = s.capacity();
-        assert!(s.used == 0 && offset < cap.max(1) + 1 && prefill <= cap);
+        // The caller may not know the element type: reduce to what fits.
+        let prefill = prefill.min(cap);
+        assert!(s.used == 0);
         s.rpos = offset % cap;
         s.wpos = (offset + prefill) % cap;
         s.used = prefill;
